@@ -18,11 +18,11 @@ class C19(Prop):
     rule = ("exec: the real SafeCmdExecution (and CmdSensor.GetValue / CmdFan.GetPwm/GetRpm/SetPwm on top) on root-owned "
             "scripts for every failure mode: exit 0 / non-zero with and without output, killed by a signal, not executable, bad "
             "executable format, interpreter vanished after the check, sleeping beyond the deadline (shell and exec'ed), "
-            "grandchild holding stdout (released before / after the WaitDelay, never), empty / garbage / 1 MB output; timeouts "
+            "path that does not resolve (dangling link, link loop, through a regular file, over-long name), grandchild holding stdout (released before / after the WaitDelay, never), empty / garbage / 1 MB output; timeouts "
             "200..2000 ms; each call under recover with a watchdog. non-trivial = distinct (behaviour, timeout bucket, result class)")
     assumptions = ["exec.CommandContext kills the direct child at the deadline; with Cmd.WaitDelay set, Output() returns at the latest "
                    "WaitDelay after the deadline or after the child's exit (documented os/exec semantics, sampled by the stream)",
-                   "os.Stat failing with an error other than not-exist (nil FileInfo dereference) is unreachable for root on a local filesystem: residual theorem C19_witness_stat_error"]
+                   "which of EvalSymlinks / Stat fails when the file is swapped under the call is the scheduler's choice: the theorem quantifies over all of them (ev, st), the stream samples a rename race (ex.statrace)"]
     partial_note = "wall-clock behaviour is sampled: process scheduling, pipe buffering and zombie reaping cannot be exhibited by the model"
     streams = [Stream("exec", gen_exec, parallel=4, timeout=1800)]
 
@@ -30,6 +30,16 @@ class C19(Prop):
         out = []
         for cops, cgo in cases(ops, go):
             for i, (op, g) in enumerate(zip(cops, cgo)):
+                if op.startswith("ex.dangling"):
+                    if "panic" in g:
+                        out.append(viol(f"external command call panicked on a path that cannot be resolved: {op} -> {g}", [cops[0], op], [cgo[0], g]))
+                    elif "run=err" not in g:
+                        out.append(viol(f"a command whose path cannot be resolved did not end in an error: {op} -> {g}", [cops[0], op], [cgo[0], g]))
+                    continue
+                if op.startswith("ex.statrace"):
+                    if g.strip() != "panics=0":
+                        out.append(viol(f"a call panicked while the executable was being swapped for a symlink loop: {op} -> {g}", [cops[0], op], [cgo[0], g]))
+                    continue
                 if not (op.startswith("ex.run") or op.startswith("ex.user")):
                     continue
                 r = kv(g)
@@ -45,6 +55,8 @@ class C19(Prop):
     def nontrivial(self, name, ops, go):
         s = set()
         for op, g in zip(ops, go):
+            if op.startswith("ex.dangling"):
+                s.add((op, g))
             if op.startswith("ex.run") or op.startswith("ex.user"):
                 a = kv(op)
                 s.add((op.split()[0], a.get("beh"), a.get("kind"), int(a.get("timeout_ms", 0)) // 500, kv(g).get("res", "")[:6]))
